@@ -185,7 +185,7 @@ func (w *Witness) Update(ctx context.Context, logID string, oldSize uint64, next
 		// checkpoint as trust-on-first-use (TOFU).
 		if status.Code(err) == codes.NotFound {
 			// Store a witness cosigned version of the checkpoint.
-			signed, err := w.signChkpt(nextNote)
+			signed, err := w.signChkpt(nextNote, logID)
 			if err != nil {
 				return nil, fmt.Errorf("couldn't sign input checkpoint: %v", err)
 			}
@@ -238,7 +238,7 @@ func (w *Witness) Update(ctx context.Context, logID string, oldSize uint64, next
 			counterInvalidConsistency.Inc(logID)
 			return prevRaw, ErrInvalidProof
 		}
-		signed, err := w.signChkpt(nextNote)
+		signed, err := w.signChkpt(nextNote, logID)
 		if err != nil {
 			return nil, fmt.Errorf("couldn't sign input checkpoint: %v", err)
 		}
@@ -257,7 +257,7 @@ func (w *Witness) Update(ctx context.Context, logID string, oldSize uint64, next
 		return prevRaw, ErrInvalidProof
 	}
 	// If the consistency proof is good we store the witness cosigned nextRaw.
-	signed, err := w.signChkpt(nextNote)
+	signed, err := w.signChkpt(nextNote, logID)
 	if err != nil {
 		return nil, fmt.Errorf("couldn't sign input checkpoint: %v", err)
 	}
@@ -269,10 +269,15 @@ func (w *Witness) Update(ctx context.Context, logID string, oldSize uint64, next
 }
 
 // signChkpt adds the witness' signature to a checkpoint.
-func (w *Witness) signChkpt(n *note.Note) ([]byte, error) {
+func (w *Witness) signChkpt(n *note.Note, logID string) ([]byte, error) {
 	cosigned, err := note.Sign(n, w.Signers...)
 	if err != nil {
 		return nil, fmt.Errorf("couldn't sign checkpoint: %v", err)
+	}
+	// The stored checkpoint is the trust anchor for the next update, so it must be readable again
+	// (e.g. adding our signatures must not take it over the note format's signature limit).
+	if _, _, err := w.parse(cosigned, logID); err != nil {
+		return nil, fmt.Errorf("cosigned checkpoint can't be read back: %v", err)
 	}
 	return cosigned, nil
 }
